@@ -175,6 +175,10 @@ def g_case(rng):
     loop = mode not in ("sibling", "action") and rng.random() < 0.35
     ninst = 2 if mode in ("ctx", "static", "setter") and rng.random() < 0.4 else 1
     case = {"kind": "e2e_hist", "mode": mode, "nvars": nvars, "classes": classes, "init": init, "tmpl": tmpl, "loop": loop, "ninst": ninst, "steps": []}
+    if ninst == 2 and rng.random() < 0.4:
+        # both instances wait for the SAME event (the statement does not name $tag); each lives in its own interaction
+        # loop, so that both can advance on one event without an action conflict
+        case["shared"] = True
     if mode == "action":
         case["n"] = rng.choice([2, 2, 3])
         case["k"] = rng.randrange(case["n"])
@@ -236,10 +240,12 @@ def source(case):
         if mode == "setter":
             for i in range(nvars):
                 L += [f"flow setter{i}", f"  global $g{i}", "  while True", f"    match Set{i}() as $s", f"    $g{i} = $s.v"]
+        if case.get("shared"):
+            L.append('@loop("NEW")')
         L += ["flow waiter $tag"] + [f"  global $g{i}" for i in range(nvars)]
         if loop:
             L.append("  while True")
-        L += [f"{ind}match Ev(x={pat}, t=$tag)", f"{ind}send Hit(tag=$tag)"]
+        L += [f"{ind}match Ev(x={pat})" if case.get("shared") else f"{ind}match Ev(x={pat}, t=$tag)", f"{ind}send Hit(tag=$tag)"]
         L.append("flow main")
         if mode == "setter":
             for i in range(nvars):
@@ -395,7 +401,7 @@ def expected_hits(case):
                     full = {"x": a}
                     if step.get("t") is not None:
                         full["t"] = step["t"]
-                    ref = {"x": r, "t": t}
+                    ref = {"x": r} if case.get("shared") else {"x": r, "t": t}
                 if base.cmp_error_possible(full, ref):
                     return out, n  # comparison between different types: documented outcome is an error (flow fails)
                 try:
@@ -464,7 +470,7 @@ def model_request(case, obs):
         else:
             args = [["x", seen]] + ([["t", {"i": s["t"]}]] if s.get("t") is not None else [])
             steps.append({"op": "ev", "args": args})
-    return {"m": "C04.hist", "tmpl": [["x", canon_tmpl(case["tmpl"])]], "init": obs["init_seen"], "tags": list(range(case["ninst"])), "loop": case["loop"],
+    return {"m": "C04.hist", "tmpl": [["x", canon_tmpl(case["tmpl"])]], "init": obs["init_seen"], "tags": list(range(case["ninst"])), "loop": case["loop"], "tagparam": not case.get("shared"),
             "steps": steps, "rx": obs["rx"]}
 
 
@@ -490,7 +496,7 @@ def shrink(case):
             yield dict(case, steps=steps[:i] + steps[i + 1:])
     if case.get("loop"):
         yield dict(case, loop=False)
-    if case.get("ninst", 1) > 1:
+    if case.get("ninst", 1) > 1 and not case.get("shared"):
         yield dict(case, ninst=1)
     t = case["tmpl"]
     if isinstance(t, dict) and ("l" in t or "d" in t):
@@ -513,7 +519,7 @@ def tags(case, obs):
     if case["loop"]:
         t.append("hist-loop")
     if case["ninst"] > 1:
-        t.append("hist-2inst")
+        t.append("hist-2inst-same-event" if case.get("shared") else "hist-2inst")
     # a stale candidate: an ev step that matches an EARLIER value of the pattern but not the current one (or vice versa), after
     # an earlier ev step that did not advance
     if _has_stale_probe(case):
